@@ -47,6 +47,10 @@ pub struct Sc {
     pub steps: usize,
     /// Look-ahead rows configured = width + extra_wrap.
     pub extra_wrap: usize,
+    /// Build the dataset with `StripedSequence::sample` (random symbols, also in the padding cells)
+    /// instead of encoding `seqs`; `seqs` then only gives the lengths. The harness reads the symbols back.
+    #[serde(default)]
+    pub sampled: Option<u64>,
 }
 
 fn fnv_usizes(xs: &[usize]) -> u64 {
@@ -103,7 +107,7 @@ where
 {
     let letters = A::as_str().as_bytes();
     let idx_of = |c: u8| letters.iter().position(|&x| x == c).expect("HARNESS: letter outside alphabet") as u8;
-    let seqs: Vec<Vec<u8>> = sc.seqs.iter().map(|s| s.bytes().map(idx_of).collect()).collect();
+    let mut seqs: Vec<Vec<u8>> = sc.seqs.iter().map(|s| s.bytes().map(idx_of).collect()).collect();
     let mut log = StepLog {
         lines: Vec::new(),
         violation: None,
@@ -129,6 +133,19 @@ where
     // dataset
     let striped = sut(|| {
         cpu::with_host(sc.host, || {
+            if let Some(seed) = sc.sampled {
+                // public constructor that fills whole rows with random symbols
+                let mut srng = SimRng::new(&RngPlan { seed, forced: Vec::new() });
+                return sc
+                    .seqs
+                    .iter()
+                    .map(|s| {
+                        let mut st: StripedSequence<A> = StripedSequence::sample(&mut srng, lightmotif::abc::Background::<A>::uniform(), s.len());
+                        st.configure_wrap(width + sc.extra_wrap);
+                        st
+                    })
+                    .collect::<Vec<_>>();
+            }
             sc.seqs
                 .iter()
                 .map(|s| {
@@ -148,6 +165,13 @@ where
             return log;
         }
     };
+    if sc.sampled.is_some() {
+        // the model of a sampled dataset is what indexing the striped sequences returns
+        use lightmotif::abc::Symbol;
+        for (i, st) in striped.iter().enumerate() {
+            seqs[i] = (0..st.len()).map(|p| st[p].as_index() as u8).collect();
+        }
+    }
     let data = match sut(|| SamplerData::<A, _>::new(&striped)) {
         Ok(d) => d,
         Err(p) => {
@@ -418,12 +442,16 @@ fn gen_world(r: &mut Prng, idx: u64, tier: Tier) -> Sc {
         _ => r.range(3, 12),
     };
     let with_wild = r.chance(1, 3);
+    // one dataset in 40 contains a long sequence (hundreds of striped rows) with long masked runs
+    let long_one = idx % 40 == 39;
     let motif: Vec<u8> = (0..width).map(|_| *r.pick(letters)).collect();
     let mut seqs = Vec::with_capacity(n);
     for _ in 0..n {
-        let len = match r.below(5) {
+        let len = match r.below(7) {
             0 => width + 1,
             1 => r.range(width + 1, width + 4),
+            2 => (*r.pick(&[31usize, 32, 33, 63, 64, 65, 95, 96, 97, 127, 128, 129, 159, 160, 161])).max(width + 1),
+            3 => (32 * r.range(1, 40) + *r.pick(&[0usize, 1, 31])).max(width + 1),
             _ => r.range(width + 1, 200.max(width + 2)),
         };
         let mut s: Vec<u8> = (0..len).map(|_| *r.pick(letters)).collect();
@@ -444,6 +472,19 @@ fn gen_world(r: &mut Prng, idx: u64, tier: Tier) -> Sc {
             }
         }
         seqs.push(String::from_utf8(s).unwrap());
+    }
+    if long_one {
+        let len = *r.pick(&[8160usize, 8192, 8193, 12000, 16384, 20000]);
+        let mut s: Vec<u8> = (0..len).map(|_| *r.pick(letters)).collect();
+        for _ in 0..r.range(1, 3) {
+            let at = r.usize_below(len);
+            let run = r.range(300, 900);
+            let sym = if r.chance(2, 3) { wild } else { *r.pick(letters) };
+            for k in at..(at + run).min(len) {
+                s[k] = sym;
+            }
+        }
+        seqs[0] = String::from_utf8(s).unwrap();
     }
     let mode = if (idx / 2) % 2 == 0 {
         Mode::Oops
@@ -482,6 +523,7 @@ fn gen_world(r: &mut Prng, idx: u64, tier: Tier) -> Sc {
         rng: RngPlan { seed: r.next_u64(), forced },
         steps,
         extra_wrap: if r.chance(1, 3) { r.range(1, 20) } else { 0 },
+        sampled: if idx % 10 == 7 { Some(r.next_u64()) } else { None },
     }
 }
 
